@@ -588,6 +588,24 @@ class SBuf:
         return id(self)
 
 
+class SMBuf:
+    """mutable buffer held as a z3 array (Int -> BV8) with length n (int | size-sorted SInt): lets stores and
+    loads use symbolic indices (C10: the codec at an arbitrary byte offset)"""
+
+    __slots__ = ("arr", "n", "arr0")
+
+    def __init__(self, arr, n):
+        self.arr = arr
+        self.arr0 = arr  # contents at creation (for model extraction and `old(...)` in postconditions)
+        self.n = n
+
+    def __hash__(self):
+        return id(self)
+
+    def __repr__(self):
+        return "SMBuf(n=%r)" % (self.n,)
+
+
 class SZeros:
     """bytearray(n) for a symbolic n: a zero-filled buffer whose length is the term n (kept as given,
     so that `len(datain) == blocksize * tl` is a syntactic identity)."""
@@ -637,7 +655,7 @@ class SStr:
         return "SStr(%s)" % (self.e,)
 
 
-SYM_TYPES = (SInt, SBool, SBytes, SBuf, SZeros, SOpaque, SStr)
+SYM_TYPES = (SInt, SBool, SBytes, SBuf, SMBuf, SZeros, SOpaque, SStr)
 
 
 def is_sym(x):
@@ -665,7 +683,7 @@ def contains_sym(x, depth=0):
 def buf_len(b):
     if isinstance(b, SZeros):
         return b.n
-    if isinstance(b, SBuf):
+    if isinstance(b, (SBuf, SMBuf)):
         return b.n
     return len(b)
 
